@@ -1,19 +1,26 @@
 /-
 C03 — marshalling then reloading a document loses and invents nothing.
-Property theorems only. Model and spec: KinModel/Marshal.lean; helper lemmas: KinModel/Lemmas/C03.lean;
-table: KinModel/Gen/Descriptors.lean (regenerated from the repository under test on every run).
+Property theorems only. Model and spec: KinModel/Marshal.lean; helper lemmas: KinModel/Lemmas/C03.lean (flat),
+C03Deep.lean (deep stability), C03Normal.lean (deep normal form); table: KinModel/Gen/Descriptors.lean
+(regenerated from the repository under test on every run).
 
 Objects are Go maps: two objects are "the same JSON" when every key looks up the same value, which is how
-the theorems state equality (`∀ k, lookup k a = lookup k b`).
+the flat theorems state equality (`∀ k, lookup k a = lookup k b`); the deep theorems use `JV.same` (same
+members under the same keys with the same values at every depth) and, for stability, plain equality.
 
 Full-strength goal (DESIGN §4):   ∀ d ∈ descriptors, d.agree        — and from it, for every kind,
   normal-form round trip (`flat_normal_roundtrip`), stability (`flat_stable`), nothing lost
-  (`flat_keeps_field`, `flat_keeps_unknown`), nothing invented (`flat_nothing_invented`).
-What holds of the tree: `all_kinds_agree_partial` (all kinds but `RequestBody`, `OAuthFlow`),
-`all_kinds_agreeW` (those two agree weakly: nothing lost, nothing invented, but not stable when the
-required map is absent — witness `requiredMap_witness`, class RequiredMapAbsent).
+  (`flat_keeps_field`, `flat_keeps_unknown`), nothing invented (`flat_nothing_invented`);
+  over the whole document tree, by induction: `rt_stable_partial` (stability for every input) and
+  `rt_normal_partial` (normal-form documents come back as the same JSON); only exclusion `JV.clean` =
+  DateExampleTrim at any depth.
+`all_kinds_agree` holds of the tree at full strength since the repairs 901ea22 (RequestBody.content /
+OAuthFlow.scopes: a nil map is written as {}, former class RequiredMapAbsent) and 2f6387f (an empty type list
+is omitted, former class EmptyTypeList); `requiredMap_fixed`, `emptyTypes_fixed` are the regression theorems
+on the former witnesses. Open: DateExampleTrim (`dateTrim_witness`).
 -/
-import KinModel.Lemmas.C03
+import KinModel.Lemmas.C03Deep
+import KinModel.Lemmas.C03Normal
 import KinModel.Gen.Descriptors
 namespace KinModel.Marshal
 open KinModel.Gen
@@ -38,25 +45,25 @@ theorem flat_keeps_unknown (c : TC → Guard → Bool) (d : Desc) (o : Obj) (k :
 /-- Every field the kind defines survives with its value, unless the value is a redundant default or the
     object is a reference. -/
 theorem flat_keeps_field (d : Desc) (o : Obj) (m : MField) (f : Field) (v : JV)
-    (h : structAgreeWith compatW d = true) (hr : refTaken d o = false)
+    (h : structAgreeWith compat d = true) (hr : refTaken d o = false)
     (hm : d.marsh.find? (fun m' => m'.key == m.key) = some m) (hf : fieldByGo d m.goName = some f)
     (hv : lookup f.key o = some v) (hd : isDefault f.tc v = false) :
     lookup m.key (flatRT d o) = some v := by
-  have w := wf_of_agree compatW d h
+  have w := wf_of_agree compat d h
   rw [flatRT_lookup d o m.key w.ext w.unm w.asg w.nodupM, flatSpec_some d o m.key m hr hm]
   obtain ⟨f', hf', _, hc⟩ := w.marshOK m (List.mem_of_find?_eq_some hm)
   rw [hf] at hf'; cases hf'
   have hval : fldVal d o m.goName = v := by
     simp only [fldVal, hf, hv]; exact decode_of_not_default f.tc v hd
   have htc : tcOfGo d m.goName = f.tc := by simp [tcOfGo, hf]
-  simp [hval, htc, compatW_keeps f.tc m.guard v hc hd]
+  simp [hval, htc, compat_keeps f.tc m.guard v hc hd, written_of_not_default f.tc m.guard v hd]
 
 /-- Nothing that was not in the input appears, except the fields the specification requires (written
     unconditionally). -/
 theorem flat_nothing_invented (d : Desc) (o : Obj) (k : String) (v : JV)
-    (h : structAgreeWith compatW d = true) (hv : lookup k (flatRT d o) = some v) :
+    (h : structAgreeWith compat d = true) (hv : lookup k (flatRT d o) = some v) :
     (lookup k o).isSome = true ∨ k ∈ specRequired d.name := by
-  have w := wf_of_agree compatW d h
+  have w := wf_of_agree compat d h
   rw [flatRT_lookup d o k w.ext w.unm w.asg w.nodupM] at hv
   cases hr : refTaken d o with
   | true =>
@@ -93,10 +100,10 @@ theorem flat_nothing_invented (d : Desc) (o : Obj) (k : String) (v : JV)
           have hz : fldVal d o m.goName = zero f.tc := by
             simp [fldVal, hf, hfk, hkm, hl, decode]
           rw [hz, htc] at hg
-          have := compatW_zero f.tc m.guard hc hg
+          have := compat_zero f.tc m.guard hc hg
           rw [← w.required]
           simp only [alwaysKeys, List.mem_map, List.mem_filter]
-          exact ⟨m, ⟨List.mem_of_find?_eq_some hfind, by simp [this]⟩, hkm⟩
+          exact ⟨m, ⟨List.mem_of_find?_eq_some hfind, this⟩, hkm⟩
       · have hg' : guard (tcOfGo d m.goName) m.guard (fldVal d o m.goName) = false := by simpa using hg
         rw [hg'] at hv
         by_cases hc' : k ∈ d.dels
@@ -164,14 +171,15 @@ theorem flat_stable (d : Desc) (o : Obj) (k : String) (h : structAgreeWith compa
       have e2 : fldVal d (flatRT d o) m.goName = decode f.tc (lookup k (flatRT d o)) := by
         simp [fldVal, hf, hfk, hkm]
       have h1 : lookup k (flatRT d o) =
-          if guard f.tc m.guard (decode f.tc (lookup k o)) then some (decode f.tc (lookup k o)) else none := by
+          if guard f.tc m.guard (decode f.tc (lookup k o)) then some (written m.guard (decode f.tc (lookup k o))) else none := by
         rw [L o k, flatSpec_some d o k m hr hfind, htc, e1]; simp [hdel]
       rw [e2, e1, htc, h1]
       simp only [hdel, if_true]
       cases hg : guard f.tc m.guard (decode f.tc (lookup k o)) with
       | true =>
         simp only [if_true]
-        rw [compat_stable f.tc m.guard _ hc hg]; simp [hg]
+        obtain ⟨s1, s2, s3⟩ := compat_stable f.tc m.guard _ hc hg
+        rw [s1, s2, s3]; simp
       | false =>
         have hz := compat_omitted f.tc m.guard _ hc hg
         simp [decode, hz]
@@ -179,110 +187,9 @@ theorem flat_stable (d : Desc) (o : Obj) (k : String) (h : structAgreeWith compa
 /-- A normal-form object (no redundant default, required fields present, nothing next to `$ref`) comes
     back unchanged: every key looks up the same value after the trip, and no key is added. -/
 theorem flat_normal_roundtrip (d : Desc) (o : Obj) (k : String)
-    (h : structAgreeWith compatW d = true) (hn : normalObjB d o = true) :
-    lookup k (flatRT d o) = lookup k o := by
-  have w := wf_of_agree compatW d h
-  rw [flatRT_lookup d o k w.ext w.unm w.asg w.nodupM]
-  simp only [normalObjB, Bool.and_eq_true, List.all_eq_true, Bool.or_eq_true, Bool.not_eq_true',
-    beq_iff_eq] at hn
-  obtain ⟨⟨⟨_, hnd⟩, hreq⟩, hsib⟩ := hn
-  -- a present field value is not a default, so it is stored and written as it is
-  have present : ∀ (f : Field) (v : JV), f ∈ d.fields → lookup f.key o = some v → isDefault f.tc v = false := by
-    intro f v hf hv
-    have := hnd (f.key, v) (lookup_mem f.key v o hv)
-    have hk : fieldByKey d f.key = some f := find_field_of_nodup f d.fields w.nodupTags hf
-    simpa [hk] using this
-  -- a `$ref` key in a kind with the early return means the object is exactly that reference
-  have refOnly : d.refEarly = true → ∀ x, lookup "$ref" o = some x → refTaken d o = true ∧ o = [("$ref", x)] := by
-    intro hre x hx
-    obtain ⟨f, hf, hfk, htc⟩ := w.refField hre
-    have hfm : f ∈ d.fields := List.mem_of_find?_eq_some hf
-    have hdx := present f x hfm (hfk ▸ hx)
-    rw [htc] at hdx
-    have hlen : o.length = 1 := by
-      rcases hsib with h1 | h1
-      · simp [hre, hasKey, hx] at h1
-      · exact h1
-    constructor
-    · unfold refTaken
-      simp only [hre, Bool.true_and, fldVal, hf, hfk, htc, hx]
-      cases x <;> simp_all [isDefault, decode, JV.isNull, JV.isEmptyStr]
-    · match o, hlen, hx with
-      | [(k0, v0)], _, hx =>
-        simp only [lookup] at hx
-        by_cases e : "$ref" = k0
-        · simp only [e, if_true, Option.some.injEq] at hx; simp [← e, hx]
-        · simp [e] at hx
-  cases hr : refTaken d o with
-  | true =>
-    have hre : d.refEarly = true := by
-      unfold refTaken at hr; simp only [Bool.and_eq_true] at hr; exact hr.1
-    obtain ⟨f, hf, hfk, htc⟩ := w.refField hre
-    rw [flatSpec_ref d o k hr]
-    cases hx : lookup "$ref" o with
-    | none =>
-      unfold refTaken at hr
-      simp [hre, fldVal, hf, hfk, htc, hx, decode, zero, JV.isEmptyStr] at hr
-    | some x =>
-      obtain ⟨_, ho⟩ := refOnly hre x hx
-      have hfm : f ∈ d.fields := List.mem_of_find?_eq_some hf
-      have hdx := present f x hfm (hfk ▸ hx)
-      have hval : fldVal d o "Ref" = x := by
-        simp only [fldVal, hf, hfk, hx]; exact decode_of_not_default f.tc x hdx
-      rw [hval, ho]
-      by_cases e : k = "$ref" <;> simp [lookup, e]
-  | false =>
-    cases hfind : d.marsh.find? (fun m => m.key == k) with
-    | none =>
-      rw [flatSpec_none d o k hr hfind]
-      by_cases hc : k ∈ d.dels
-      · simp only [hc, if_true]
-        -- a tag without a write is `$ref` of a kind with the early return
-        have hkt : k ∈ tagKeys d := w.dels ▸ hc
-        have hnm : k ∉ marshKeys d := by
-          intro hm
-          obtain ⟨m, hm1, hm2⟩ := List.mem_map.mp hm
-          have := List.find?_eq_none.mp hfind m hm1
-          simp [hm2] at this
-        rw [w.keysEq] at hnm
-        unfold expectedMarshKeys at hnm
-        cases hre : d.refEarly with
-        | false => simp [hre] at hnm; exact absurd hkt hnm
-        | true =>
-          simp only [hre, if_true, List.mem_filter, not_and, bne_iff_ne, ne_eq, Decidable.not_not] at hnm
-          have hk := hnm hkt
-          subst hk
-          cases hx : lookup "$ref" o with
-          | none => rfl
-          | some x => have := (refOnly hre x hx).1; rw [hr] at this; cases this
-      · simp [hc]
-    | some m =>
-      rw [flatSpec_some d o k m hr hfind]
-      have hmem := List.mem_of_find?_eq_some hfind
-      have hkm : m.key = k := by simpa using List.find?_some hfind
-      obtain ⟨f, hf, hfk, hc⟩ := w.marshOK m hmem
-      have hfm : f ∈ d.fields := List.mem_of_find?_eq_some hf
-      have htc : tcOfGo d m.goName = f.tc := by simp [tcOfGo, hf]
-      have hdel : k ∈ d.dels := hkm ▸ marsh_key_in_dels compatW d w m hmem
-      cases hx : lookup k o with
-      | some v =>
-        have hdv := present f v hfm (by rw [hfk, hkm]; exact hx)
-        have hval : fldVal d o m.goName = v := by
-          simp only [fldVal, hf, hfk, hkm, hx]; exact decode_of_not_default f.tc v hdv
-        simp [hval, htc, compatW_keeps f.tc m.guard v hc hdv]
-      | none =>
-        have hval : fldVal d o m.goName = zero f.tc := by simp [fldVal, hf, hfk, hkm, hx, decode]
-        rw [hval, htc]
-        cases hg : guard f.tc m.guard (zero f.tc) with
-        | false => simp [hdel]
-        | true =>
-          have hal := compatW_zero f.tc m.guard hc hg
-          have : k ∈ requiredKeys d := by
-            unfold requiredKeys; rw [← w.required]
-            simp only [alwaysKeys, List.mem_map, List.mem_filter]
-            exact ⟨m, ⟨hmem, by simp [hal]⟩, hkm⟩
-          have := hreq k this
-          simp [hasKey, hx] at this
+    (h : structAgreeWith compat d = true) (hn : normalObjB d o = true) :
+    lookup k (flatRT d o) = lookup k o :=
+  flat_normal_lookup d o k (wf_of_agree compat d h) hn
 
 /-! ## composition over nesting: first level -/
 
@@ -297,7 +204,7 @@ theorem rt_leafKind (T : List Desc) (n : Nat) (k : String) (d : Desc) (o : Obj)
     rt T (n + 2) (.kind k) (.obj o) = .ok (.obj (flatRT d o)) := by
   simp only [leafKind, Bool.and_eq_true, beq_iff_eq, List.all_eq_true, List.isEmpty_iff] at hl
   obtain ⟨⟨ht, hs⟩, hp⟩ := hl
-  have hpost : applyPost d o = o := by simp [applyPost, hp]
+  have hpost : applyPost d o = o := by simp [applyPost, dateTrimHit, hp]
   have hshape : ∀ g, shapeOfGo d g = .leaf := by
     intro g
     unfold shapeOfGo
@@ -308,11 +215,9 @@ theorem rt_leafKind (T : List Desc) (n : Nat) (k : String) (d : Desc) (o : Obj)
     apply marshalDeep_of_children_fixed
     intro m _ _
     rw [hshape]
-    rw [rt]
     rfl
-  rw [rt]
-  simp only [hf, ht, hpost, hchild]
-  rfl
+  show rtStep T (rt T (n + 1)) (.kind k) (.obj o) = _
+  simp only [rtStep, stepKind, hf, ht, hpost, hchild, Res.wrap, flatRT]
 
 /-- … hence for those kinds the deep round trip is stable: a second trip changes no key. -/
 theorem rt_leafKind_stable (T : List Desc) (n : Nat) (k : String) (d : Desc) (o : Obj)
@@ -334,20 +239,32 @@ theorem leaf_kinds :
 /-- the translator read every statement of every marshaller / unmarshaller -/
 theorem no_unrecognised : ∀ d ∈ descriptors, d.unrecognised = [] := by decide
 
-/-- kinds whose required named map is written unconditionally (class RequiredMapAbsent) -/
-def requiredMapKinds : List String := ["openapi3.OAuthFlow", "openapi3.RequestBody"]
-
-/- Full-strength statement (fails on this tree, see `requiredMap_witness`):
-     all_kinds_agree : ∀ d ∈ descriptors, d.agree = true -/
-
 /-- tags = marshal keys = delete list, every write reads the field of its key under a guard that fits the
-    field's type, extension copy / second decode / assignment back / delegation present, reference wrappers
-    and map-like containers are instances of their template — for every kind but the two excluded ones -/
-theorem all_kinds_agree_partial :
-    ∀ d ∈ descriptors, d.name ∉ requiredMapKinds → d.agree = true := by decide
+    field's type, the unconditional writes are exactly the fields the specification requires, extension copy /
+    second decode / assignment back / delegation present, reference wrappers and map-like containers are
+    instances of their template — for EVERY kind (full strength: no kind is excluded any more) -/
+theorem all_kinds_agree : ∀ d ∈ descriptors, d.agree = true := by decide
 
-/-- … and the two excluded kinds agree weakly (nothing lost, nothing invented) -/
-theorem all_kinds_agreeW : ∀ d ∈ descriptors, d.agreeW = true := by decide
+/-- the pieces of the round trip that are modelled by hand (`Types`, `AdditionalProperties`, the generic
+    `unmarshalStringMap(P)` / `deepCast` behind every named map type) are in the table, and their source is
+    still the text the model (`rtTypes`, `stepAddProps`, `entryStep`, `nullFix`) was written from; every named
+    map type's unmarshaller is an instance of `unmarshalStringMap(P)` -/
+theorem hand_modelled_pieces_unchanged :
+    (descriptors.filter (fun d => d.template == .special)).map (·.name) =
+      ["openapi3.Types", "openapi3.AdditionalProperties", "openapi3.unmarshalStringMapP",
+       "openapi3.unmarshalStringMap", "openapi3.deepCast"] ∧
+    (∀ d ∈ descriptors, (d.template = .namedMap ∨ d.template = .special) → d.uniform = true) := by decide
+
+/-- a named-map shape met in a field, directly or as the element of a list -/
+def namedMapShapeOf : Shape → Option Shape
+  | .pmap s => some (.pmap s)
+  | .list (.pmap s) => some (.pmap s)
+  | _ => none
+
+/-- every field whose shape is a named map is the shape of a named map type of the table -/
+theorem named_map_fields_in_table :
+    ∀ d ∈ descriptors, ∀ f ∈ d.fields, ∀ s, namedMapShapeOf f.shape = some s →
+      descriptors.any (fun r => r.template == .namedMap && r.valueShape == s) = true := by decide
 
 /-- kind names are unique, so that `findDesc` finds the row of the kind -/
 theorem kind_names_distinct : (descriptors.map (·.name)).Nodup := by decide
@@ -357,16 +274,148 @@ theorem ref_wrappers_uniform :
     (descriptors.filter (fun d => d.template == .ref)).length = 10 ∧
     ∀ d ∈ descriptors, d.template = .ref → d.uniform = true := by decide
 
+/-! ## composition over nesting: the whole document tree -/
+
+/-- the side conditions of the deep induction hold of every row of the regenerated table: struct kinds agree,
+    every child shape fits the Go type class of its field, the date post-processing reads plain fields, no
+    wrapper / alias / container stands for (a map of) bare type lists -/
+theorem table_deepOK : ∀ d ∈ descriptors, d.deepOK = true := by decide
+
+/- Full-strength statement (fails on this tree: open finding F-C03-1, `dateTrim_witness`):
+     rt_stable : rt descriptors n s v = .ok v1 → rt descriptors n s v1 = .ok v1 -/
+
+/-- Deep stability for any table that satisfies the side conditions — every shape (struct kinds, reference
+    wrappers, map-like containers, named maps, lists, `Types`, `AdditionalProperties`), any nesting depth, any
+    input (redundant defaults, nulls, unknown keys, extensions, siblings of `$ref` included): what the first trip
+    (parse, serialise) writes is a fixed point — parsing and serialising it again gives exactly the same JSON.
+    The only exclusion is `JV.clean`: no object of the input is changed by the date-trimming statement (class
+    DateExampleTrim — open finding F-C03-1 — at every depth). Induction over the fuel with the invariant `Inv`
+    (Lemmas/C03Deep.lean). -/
+theorem rt_stable_of_table (T : List Desc) (hT : ∀ d ∈ T, d.deepOK = true) (n : Nat) (s : Shape) (v v1 : JV)
+    (hc : v.clean = true) (h : rt T n s v = .ok v1) : rt T n s v1 = .ok v1 :=
+  (rt_inv hT n).idem s v v1 hc h
+
+/-- … and so for the table of this repository -/
+theorem rt_stable_partial (n : Nat) (s : Shape) (v v1 : JV) (hc : v.clean = true)
+    (h : rt descriptors n s v = .ok v1) : rt descriptors n s v1 = .ok v1 :=
+  rt_stable_of_table descriptors table_deepOK n s v v1 hc h
+
+/- Full-strength statement (fails on this tree: open finding F-C03-1, first part of `dateTrim_witness`):
+     rt_normal : normalB descriptors n s v = true → ∃ v1, rt descriptors n s v = .ok v1 ∧ v.same v1 -/
+
+/-- Deep normal-form round trip for any table that satisfies the side conditions: a document in deep normal
+    form (no redundant default, no sibling next to `$ref`, no null entry, distinct keys, required fields
+    present — at every object the shape grammar reaches, spec-side `normalB`) is parsed and serialised without
+    panic or refusal, and what is written is the same JSON as the input: same members under the same keys with
+    the same values at every depth, member order apart (`JV.same`). Exclusion: `JV.clean` (DateExampleTrim). -/
+theorem rt_normal_of_table (T : List Desc) (hT : ∀ d ∈ T, d.deepOK = true) (n : Nat) (s : Shape) (v : JV)
+    (hc : v.clean = true) (hn : normalB T n s v = true) : ∃ v1, rt T n s v = .ok v1 ∧ v.same v1 :=
+  (rt_ninv hT n).ok s v hc hn
+
+/-- … and so for the table of this repository -/
+theorem rt_normal_partial (n : Nat) (s : Shape) (v : JV) (hc : v.clean = true)
+    (hn : normalB descriptors n s v = true) : ∃ v1, rt descriptors n s v = .ok v1 ∧ v.same v1 :=
+  rt_normal_of_table descriptors table_deepOK n s v hc hn
+
+/-- both halves of the property for a normal-form document: the serialised JSON is the input, and parsing and
+    serialising that output again gives exactly the same JSON -/
+theorem rt_normal_and_stable_partial (n : Nat) (s : Shape) (v : JV) (hc : v.clean = true)
+    (hn : normalB descriptors n s v = true) :
+    ∃ v1, rt descriptors n s v = .ok v1 ∧ v.same v1 ∧ rt descriptors n s v1 = .ok v1 := by
+  obtain ⟨v1, h1, h2⟩ := rt_normal_partial n s v hc hn
+  exact ⟨v1, h1, h2, rt_stable_partial n s v v1 hc h1⟩
+
+/-- `same` is not trivial: a changed value, a lost member and an invented member are all excluded -/
+example : ¬ (JV.obj [("a", .num 1 0)]).same (.obj [("a", .num 2 0)]) ∧
+    ¬ (JV.obj [("a", .num 1 0), ("b", .null)]).same (.obj [("a", .num 1 0)]) ∧
+    ¬ (JV.obj [("a", .num 1 0)]).same (.obj [("a", .num 1 0), ("b", .null)]) ∧
+    (JV.obj [("a", .num 1 0), ("b", .null)]).same (.obj [("b", .null), ("a", .num 1 0)]) := by
+  refine ⟨?_, ?_, ?_, ?_⟩
+  · simp [JV.same, sameO, lookup]
+  · simp [JV.same, sameO, lookup]
+  · simp [JV.same, sameO, lookup]
+    exact ⟨"b", by simp⟩
+  · simp [JV.same, sameO, lookup]
+    intro k
+    by_cases h1 : k = "a" <;> by_cases h2 : k = "b" <;> simp [h1, h2]
+
+/-- non-vacuity of `rt_normal_partial`: a nested document (a whole OpenAPI 3 document with a path, an
+    operation, a response, a media type and a schema with properties, an extension and an unknown key) is in
+    deep normal form and in scope -/
+example :
+    let v : JV := .obj [("openapi", .str "3.0.3"), ("info", .obj [("title", .str "t"), ("version", .str "1")]),
+      ("paths", .obj [("/a", .obj [("get", .obj [("responses", .obj [("200", .obj [("description", .str "ok"),
+        ("content", .obj [("application/json", .obj [("schema", .obj [("type", .str "object"), ("x-e", .num 1 0),
+          ("properties", .obj [("p", .obj [("$ref", .str "#/components/schemas/A")]),
+                               ("q", .obj [("type", .arr [.str "string", .str "null"]), ("bogus", .null)])])])])])])])])])]),
+      ("x-top", .arr [.null])]
+    v.clean = true ∧ normalB descriptors 40 (.kind "openapi3.T") v = true := by decide
+
+/-- no reference is invented at any depth: an object that is not a reference (no `$ref` member, or one
+    that is not a non-empty string) is not serialised as one (no hypothesis on the input) -/
+theorem rt_invents_no_ref (n : Nat) (s : Shape) (kvs kvs1 : Obj) (hs : refSafe s = true)
+    (h : rt descriptors n s (.obj kvs) = .ok (.obj kvs1)) (hr : refString kvs = none) :
+    refString kvs1 = none :=
+  (rt_inv table_deepOK n).noRef s kvs kvs1 hs h hr
+
+/-- Nothing is lost at any struct object of the deep round trip, whatever its children are: a key that is not
+    a tag of the kind — a specification extension, an unknown field — is written back with its value (deep
+    counterpart of `flat_keeps_unknown`; `example` is excluded because of the date post-processing). -/
+theorem rt_keeps_unknown (n : Nat) (kind : String) (d : Desc) (kvs o1 : Obj) (key : String)
+    (hf : findDesc descriptors kind = some d) (ht : d.template = .struct)
+    (h : rt descriptors (n + 1) (.kind kind) (.obj kvs) = .ok (.obj o1))
+    (hr : refTaken d (applyPost d kvs) = false) (hk : key ∉ tagKeys d) (hke : key ≠ "example") :
+    lookup key o1 = lookup key kvs := by
+  have h' : rtStep descriptors (rt descriptors n) (.kind kind) (.obj kvs) = .ok (.obj o1) := h
+  simp only [rtStep, stepKind, hf, ht] at h'
+  obtain ⟨o2, hm, e⟩ := wrap_ok _ _ _ h'
+  cases e
+  obtain ⟨w, _, _⟩ := deepOK_struct d (table_deepOK d (findDesc_mem descriptors kind d hf)) ht
+  exact marshalDeep_keeps_unknown d w kvs o1 hm hr key hk hke
+
+/-- a value never becomes null in the trip (only an empty type list does) -/
+theorem rt_keeps_non_null (n : Nat) (s : Shape) (v v1 : JV) (hs : s ≠ .types)
+    (h : rt descriptors n s v = .ok v1) (hn : v.isNull = false) : v1.isNull = false :=
+  (rt_inv table_deepOK n).nn s v v1 hs h hn
+
+/-- non-vacuity of `rt_stable_partial`: a nested document with redundant defaults, a null entry, an extension,
+    an unknown key and a reference with a sibling is in scope, the first trip returns a value that differs from
+    the input, and the second trip returns that value again -/
+example :
+    let v : JV := .obj [("type", .arr [.str "object"]), ("title", .str ""), ("x-e", .num 1 0), ("bogus", .null),
+      ("properties", .obj [("a", .obj [("$ref", .str "#/components/schemas/A"), ("description", .str "sib")]),
+                           ("b", .null),
+                           ("c", .obj [("items", .obj [("type", .arr []), ("format", .str "date"), ("example", .str "2020-01-02")])])])]
+    v.clean = true ∧
+    (match rt descriptors 12 (.kind "openapi3.Schema") v with
+     | .ok v1 => (match v1 with
+                  | .obj [("properties", .obj [("a", .obj [("$ref", _)]), ("b", .null), ("c", .obj [("items", .obj [("example", _), ("format", _)])])]),
+                          ("type", .str "object"), ("x-e", _), ("bogus", .null)] =>
+                    (match rt descriptors 12 (.kind "openapi3.Schema") v1 with
+                     | .ok (.obj [("properties", _), ("type", .str "object"), ("x-e", _), ("bogus", .null)]) => true
+                     | _ => false)
+                  | _ => false)
+     | _ => false) = true := by decide
+
 /-! ## witnesses (inside the exclusions the model differs from the spec) and non-vacuity -/
 
 def requestBodyDesc : Desc := (findDesc descriptors "openapi3.RequestBody").getD default
+def oauthFlowDesc : Desc := (findDesc descriptors "openapi3.OAuthFlow").getD default
 
-/-- RequiredMapAbsent: a request body without `content` — first trip writes null, second trip writes {} -/
-theorem requiredMap_witness :
-    let o : Obj := [("description", .str "d")]
-    requestBodyDesc.name ∈ requiredMapKinds ∧
-    (lookup "content" (flatRT requestBodyDesc o)).map JV.isNull = some true ∧
-    (lookup "content" (flatRT requestBodyDesc (flatRT requestBodyDesc o))).map JV.isEmptyObj = some true := by
+/-- F-C03-3 (repaired by 901ea22, former class RequiredMapAbsent): a request body without `content` / an OAuth
+    flow without `scopes` — the first trip writes {} (not null), the second trip writes {} again, and the model
+    agrees with the spec (stable) on the former witness inputs -/
+theorem requiredMap_fixed :
+    (let o : Obj := [("description", .str "d")]
+     (lookup "content" (flatRT requestBodyDesc o)).map JV.isEmptyObj = some true ∧
+     (lookup "content" (flatRT requestBodyDesc (flatRT requestBodyDesc o))).map JV.isEmptyObj = some true ∧
+     (match rt descriptors 8 (.kind "openapi3.RequestBody") (.obj o) with
+      | .ok (.obj [("content", .obj []), ("description", .str "d")]) => true | _ => false) = true ∧
+     (match rt descriptors 8 (.kind "openapi3.RequestBody") (.obj [("content", .obj []), ("description", .str "d")]) with
+      | .ok (.obj [("content", .obj []), ("description", .str "d")]) => true | _ => false) = true) ∧
+    (let o : Obj := [("tokenUrl", .str "u")]
+     (lookup "scopes" (flatRT oauthFlowDesc o)).map JV.isEmptyObj = some true ∧
+     (lookup "scopes" (flatRT oauthFlowDesc (flatRT oauthFlowDesc o))).map JV.isEmptyObj = some true) := by
   decide
 
 def schemaDesc : Desc := (findDesc descriptors "openapi3.Schema").getD default
@@ -375,15 +424,35 @@ def schemaDesc : Desc := (findDesc descriptors "openapi3.Schema").getD default
 theorem dateTrim_witness :
     let o : Obj := [("format", .str "date"), ("example", .str "2020-01-02T00:00:00Z")]
     dateTrimHit schemaDesc o = true ∧ normalObjB schemaDesc o = true ∧
-    (match lookup "example" (applyPost schemaDesc o) with | some (.str e) => e == "2020-01-02" | _ => false) = true := by
+    (match lookup "example" (applyPost schemaDesc o) with | some (.str e) => e == "2020-01-02" | _ => false) = true ∧
+    -- and a second reload changes it again when the suffix occurs twice: the first output is not stable
+    (let o2 : Obj := [("format", .str "date"), ("example", .str "2020T00:00:00ZT00:00:00Z")]
+     (match rt descriptors 8 (.kind "openapi3.Schema") (.obj o2) with
+      | .ok (.obj [("example", .str e1), ("format", _)]) =>
+        (match rt descriptors 8 (.kind "openapi3.Schema") (.obj [("example", .str e1), ("format", .str "date")]) with
+         | .ok (.obj [("example", .str e2), ("format", _)]) => e1 == "2020T00:00:00Z" && e2 == "2020"
+         | _ => false)
+      | _ => false) = true) := by
   decide
 
-/-- EmptyTypeList: `type: []` is written as null, and the reloaded document has no type -/
-theorem emptyTypes_witness :
-    (rt descriptors 8 (.kind "openapi3.Schema") (.obj [("type", .arr [])])).toOption.map
-        (fun v => match v with | .obj [("type", .null)] => true | _ => false) = some true ∧
-    (rt descriptors 8 (.kind "openapi3.Schema") (.obj [("type", .null)])).toOption.map
-        (fun v => match v with | .obj [] => true | _ => false) = some true := by
+/-- F-C03-4 (repaired by 2f6387f, former class EmptyTypeList): `type: []` is omitted by the three marshallers
+    that hold a `*Types` (v3 schema, v2 schema, v2 parameter), so the first serialisation is already the stable
+    one; the model agrees with the spec on the former witness inputs -/
+theorem emptyTypes_fixed :
+    (match rt descriptors 8 (.kind "openapi3.Schema") (.obj [("type", .arr [])]) with
+     | .ok (.obj []) => true | _ => false) = true ∧
+    (match rt descriptors 8 (.kind "openapi2.Schema") (.obj [("type", .arr [])]) with
+     | .ok (.obj []) => true | _ => false) = true ∧
+    (match rt descriptors 8 (.kind "openapi2.Parameter") (.obj [("name", .str "p"), ("type", .arr [])]) with
+     | .ok (.obj [("name", .str "p")]) => true | _ => false) = true ∧
+    (match rt descriptors 8 (.kind "openapi2.Parameter") (.obj [("name", .str "p")]) with
+     | .ok (.obj [("name", .str "p")]) => true | _ => false) = true := by
+  decide
+
+/-- every field of the table that holds a `*Types` is written under the guard that omits the empty list -/
+theorem types_fields_guarded :
+    ∀ d ∈ descriptors, ∀ f ∈ d.fields, f.shape = .types →
+      f.tc = .ptypes ∧ d.marsh.any (fun m => m.goName == f.goName && m.guard == .neNilLenNe0) = true := by
   decide
 
 /-- F-C03-2 (repaired): no position of any kind turns a null entry into a wrapper whose marshaller
